@@ -295,10 +295,6 @@ Definition layer_safeb (l : layer_abs) : bool :=
   single_normalb (la_dir l) && forallb (λ g, single_normalb (g_path g)) (la_glifs l).
 Definition layers_safeb (f : font_abs) : bool := forallb layer_safeb (fa_layers f).
 
-(** the class of finding F8: some glif path taken from contents.plist, or some layer directory,
-    is not a single plain component *)
-Definition KnownClass_F8 (f : font_abs) : Prop := ¬ layers_safe f.
-
 (** the tree a font determines, relative to the target: the entries in writing order *)
 Definition rel_name (r : rel) : string := match r with [Normal s] => s | _ => "" end.
 Definition glif_entries (d : string) (g : glif_abs) : list (path * snode) :=
@@ -371,13 +367,13 @@ Definition check_name (k : refusal) : string * string :=
   end.
 Definition guard_name (tf : topfile) : string :=
   match tf with
-  | FInfo => "font_info" | FLib => "lib+objectlibs" | FGroups => "groups" | FKerning => "kerning"
-  | FFeatures => "features" | _ => ""
+  | FInfo => "!self.font_info.is_empty()" | FLib => "!lib.is_empty()" | FGroups => "!self.groups.is_empty()"
+  | FKerning => "!self.kerning.is_empty()" | FFeatures => "!self.features.is_empty()" | _ => ""
   end.
 Definition skel_step (s : sstep) : list (string * string) :=
   match s with
   | SRefuse k => [check_name k; ("err", werr_name (err_of k))]
-  | SWipe => [("exists", ""); ("remove_dir_all", ""); ("err", werr_name Cleanup)]
+  | SWipe => [("guard", "path.exists()"); ("exists", ""); ("remove_dir_all", ""); ("err", werr_name Cleanup)]
   | SCreate => [("create_dir", ""); ("err", werr_name CreateUfoDir)]
   | SFile FMeta =>   (* the two arms of the creator test write the same file *)
       [("write_xml", topfile_name FMeta); ("err", werr_name (topfile_err FMeta));
@@ -391,10 +387,10 @@ Definition skel_step (s : sstep) : list (string * string) :=
   | SFile tf => [("guard", guard_name tf); ("write_xml", topfile_name tf); ("err", werr_name (topfile_err tf))]
   | SLayers => [("layer", "save_with_options"); ("err", werr_name (LayerErr "" LCreateDir))]
   | SData =>
-      [("guard", "data"); ("create_dir_all", DATA_DIR +:+ "/<data_path>/.."); ("err", werr_name CreateStoreDir);
+      [("guard", "!self.data.is_empty()"); ("create_dir_all", DATA_DIR +:+ "/<data_path>/.."); ("err", werr_name CreateStoreDir);
        ("write", DATA_DIR +:+ "/<data_path>"); ("err", werr_name DataErr)]
   | SImages =>
-      [("guard", "images"); ("create_dir", IMAGES_DIR); ("err", werr_name CreateStoreDir);
+      [("guard", "!self.images.is_empty()"); ("create_dir", IMAGES_DIR); ("err", werr_name CreateStoreDir);
        ("write", IMAGES_DIR +:+ "/<image_path>"); ("err", werr_name ImageErr)]
   end.
 Definition save_skeleton : list (string * string) := concat (map skel_step save_steps).
@@ -407,7 +403,7 @@ Definition skel_lstep (s : lstep) : list (string * string) :=
   end.
 Definition layer_skeleton : list (string * string) := concat (map skel_lstep layer_steps).
 Definition layerinfo_skeleton : list (string * string) :=
-  [("guard", "color+lib"); ("write_xml", LAYER_INFO_FILE); ("err", layer_err_name LLayerInfo)].
+  [("guard", "self.color.is_none() && self.lib.is_empty()"); ("write_xml", LAYER_INFO_FILE); ("err", layer_err_name LLayerInfo)].
 Definition glyph_skeleton : list (string * string) :=
   [("check", "public.objectLibs"); ("err", layer_err_name LGlyphObjLibs);
    ("write", ""); ("err", layer_err_name LGlyphIo)].
